@@ -469,6 +469,17 @@ var c02amps = []c02amp{
 		sub.raw(otClassdefReset(12)...)
 		return otTable(otLookupFanout(5, k, sub.b))
 	}},
+	{"gsub5-classdef-reset-5000-pairs-x-k-subtables", dGsub, func(size int, th bool) []byte {
+		// the same, at the size where a reader that accepts reset ranges does
+		// not return: 5000 pairs cost 13 s per reference (measured), k
+		// references k times that; the work is quadratic in the input length
+		k := pick3(size, 1, 6, 40)
+		sub := &bw{}
+		sub.u16(2, 10, 20, 0, 0)
+		sub.raw(otCoverageFull()...)
+		sub.raw(otClassdefReset(5000)...)
+		return otTable(otLookupFanout(5, k, sub.b))
+	}},
 	{"gsub4-componentCount-0", dGsub, func(size int, th bool) []byte {
 		m := pick3(size, 100, 400, 1600)
 		w := &bw{}
